@@ -1,4 +1,4 @@
-(* ContentComparer.compare from the two TEXTS of .properties files, nothing supplied
+(* ContentComparer.compare from the two TEXTS of .properties or .dtd files, nothing supplied
    from outside: the parser model (Model/Parse.v, ParseFormats.v: PropertiesParser.walk),
    PropertiesEntity.key / .val (Model/Unescape.v: escape.sub(unescape, raw_val)),
    Entry.count_words (Model/CountWords.v), Junk.key / .val (parser/base.py), then
@@ -32,6 +32,15 @@ Definition junk_key (junkid : nat) (sp : span) : str :=
 Definition text_of (s : str) (o : option span) : str :=
   match o with Some sp => slice s (fst sp) (snd sp) | None => [] end.
 
+(* ---- generic in the format --------------------------------------------------------------
+   [walkf]  Parser.walk of the format
+   [valf]   Entity.val from the raw value text
+   [bump]   whether getNext created (and dropped) a Junk before it produced this entity:
+            the DTD parser does for parsed entities, which advances the counter *)
+Section Text.
+Context (walkf : str -> result (list entry)) (valf : str -> result str)
+        (bump : str -> entry -> bool).
+
 (* one localizable entry of the walk as the comparison sees it *)
 Definition text_cent (j : nat) (s : str) (e : entry) : result (@cent pykey str * nat) :=
   match e_kind e with
@@ -40,9 +49,10 @@ Definition text_cent (j : nat) (s : str) (e : entry) : result (@cent pykey str *
       Ok (mkcent (KS (junk_key (S j) (e_span e))) (text_of s (Some (e_span e))) 0 true
                  (Z.of_nat (fst (e_span e))), S j)
   | _ =>
-      do v <- props_val (text_of s (e_val e));      (* PropertiesEntity.val *)
+      do v <- valf (text_of s (e_val e));           (* Entity.val *)
       do w <- count_words v;                        (* Entry.count_words *)
-      Ok (mkcent (KS (text_of s (e_key e))) v w false (Z.of_nat (fst (e_span e))), j)
+      Ok (mkcent (KS (text_of s (e_key e))) v w false (Z.of_nat (fst (e_span e))),
+          if bump s e then S j else j)
   end.
 
 Fixpoint text_cents (j : nat) (s : str) (es : list entry) : result (list (@cent pykey str) * nat) :=
@@ -55,14 +65,32 @@ Fixpoint text_cents (j : nat) (s : str) (es : list entry) : result (list (@cent 
   end.
 
 (* p.readFile(f); p.parse(): the localizable entries *)
-Definition parse_properties (j : nat) (s : str) : result (list (@cent pykey str) * nat) :=
-  do es <- walk_properties s;
+Definition parse_text (j : nat) (s : str) : result (list (@cent pykey str) * nat) :=
+  do es <- walkf s;
   text_cents j s (filter is_localizable es).
 
-(* ContentComparer.compare on two .properties texts *)
-Definition compare_properties (j0 : nat) (flt : pykey -> verdict)
+(* ContentComparer.compare on two texts *)
+Definition compare_texts (j0 : nat) (flt : pykey -> verdict)
     (chk : @cent pykey str -> @cent pykey str -> list finding) (merge : bool)
     (ref_text l10n_text : str) : result (@acc pykey) :=
-  do r <- parse_properties j0 ref_text;
-  do l <- parse_properties (snd r) l10n_text;
+  do r <- parse_text j0 ref_text;
+  do l <- parse_text (snd r) l10n_text;
   compare pykey_eqb str_eqb py_keyname flt chk merge (fst r) (fst l).
+
+End Text.
+
+(* ---- .properties: PropertiesEntity.val = escape.sub(unescape, raw_val) ----------------- *)
+Definition no_bump (s : str) (e : entry) : bool := false.
+Definition parse_properties := parse_text walk_properties props_val no_bump.
+Definition compare_properties := compare_texts walk_properties props_val no_bump.
+
+(* ---- .dtd: DTDEntityMixin.val = html_unescape(raw_val), CPython's html.unescape: an oracle.
+   A parsed entity (<!ENTITY % x SYSTEM "..."> %x;) is found only after Parser.getNext has
+   returned a Junk, which is dropped: the entity is one iff rePE matches where it starts
+   (reKey cannot match there: "%" is no name character). *)
+Definition dtd_bump (s : str) (e : entry) : bool :=
+  match omatch Generated.RxParser.rx_dtd_pe s (fst (e_span e)) with Some _ => true | None => false end.
+Definition parse_dtd (html_unescape : str -> str) :=
+  parse_text walk_dtd (fun raw => Ok (html_unescape raw)) dtd_bump.
+Definition compare_dtd (html_unescape : str -> str) :=
+  compare_texts walk_dtd (fun raw => Ok (html_unescape raw)) dtd_bump.
